@@ -87,8 +87,8 @@ func (c *MJWrapperComponent) getEffectiveWidth() int {
 	// This ensures child sections receive reduced containerWidth accounting for wrapper padding
 	padding := c.getAttribute("padding")
 	if padding != "" {
-		if sp, err := styles.ParseSpacing(padding); err == nil && sp != nil {
-			effectiveWidth -= int(sp.Left + sp.Right)
+		if left, right, ok := styles.ParseHorizontalSpacing(padding); ok {
+			effectiveWidth -= int(left + right)
 		}
 	}
 
@@ -97,8 +97,8 @@ func (c *MJWrapperComponent) getEffectiveWidth() int {
 		if px, err := styles.ParsePixel(pl); err == nil && px != nil {
 			// If we already subtracted from shorthand, add it back first
 			if padding != "" {
-				if sp, err := styles.ParseSpacing(padding); err == nil && sp != nil {
-					effectiveWidth += int(sp.Left)
+				if left, _, ok := styles.ParseHorizontalSpacing(padding); ok {
+					effectiveWidth += int(left)
 				}
 			}
 			effectiveWidth -= int(px.Value)
@@ -108,8 +108,8 @@ func (c *MJWrapperComponent) getEffectiveWidth() int {
 		if px, err := styles.ParsePixel(pr); err == nil && px != nil {
 			// If we already subtracted from shorthand, add it back first
 			if padding != "" {
-				if sp, err := styles.ParseSpacing(padding); err == nil && sp != nil {
-					effectiveWidth += int(sp.Right)
+				if _, right, ok := styles.ParseHorizontalSpacing(padding); ok {
+					effectiveWidth += int(right)
 				}
 			}
 			effectiveWidth -= int(px.Value)
